@@ -443,7 +443,15 @@ func BuildCte(query *Query, expr *sqlparser.With) error {
 		copy := *cte
 		name := copy.ID.String()
 		evaluating := false
+		evaluated := false
+		var rows any
 		scope[name] = CteEvaluation(func() (any, error) {
+			// a scope inside this one (a CTE body with its own WITH) holds a
+			// copy of this thunk: whoever calls it again gets the rows, the
+			// body is evaluated once
+			if evaluated {
+				return rows, nil
+			}
 			// a CTE that reads itself, directly or through another CTE,
 			// would recurse until the stack overflows
 			if evaluating {
@@ -467,6 +475,7 @@ func BuildCte(query *Query, expr *sqlparser.With) error {
 			// memoised in the scope that declares the CTE (a body with its
 			// own WITH works on a copy of it)
 			scope[name] = rs
+			evaluated, rows = true, rs
 			return rs, nil
 		})
 	}
